@@ -116,4 +116,6 @@ class NoInternalError(Monitor):
         a = res.extra.get("action")
         if a:
             sig["reported_task_is_engine_command"] = a[0] in ("fail", "noop", "continue", "retry")
+            sig["reported_action_is_item"] = len(a) > 2 and a[2] is not None
+        sig["after_rerun"] = bool(sim.h["reruns"])
         return [{"kind": "exception", "sig": sig, "detail": res.exc}]
